@@ -379,7 +379,17 @@ node lists (exhaustion = `recursion`) -/
 def exec (c : List Level) (D : Dispatch) : Nat → Env → List Node → Res
   | 0, _, _ => .error .recursion
   | _ + 1, _, [] => .ok []
-  | f + 1, env, n :: rest => seq (step c D (exec c D f) env n) (exec c D f env rest)
+  | f + 1, env, n :: rest =>
+    -- not `seq …`: an exception must stop the execution, the rest is not evaluated
+    match step c D (exec c D f) env n with
+    | .error e => .error e
+    | .ok a => match exec c D f env rest with
+      | .error e => .error e
+      | .ok b => .ok (a ++ b)
+
+theorem exec_cons (c : List Level) (D : Dispatch) (f : Nat) (env : Env) (n : Node) (rest : List Node) :
+    exec c D (f + 1) env (n :: rest) = seq (step c D (exec c D f) env n) (exec c D f env rest) := by
+  simp only [exec, seq]
 
 /-! ## compile-time checks on blocks (`_Identifiers`) -/
 
